@@ -355,14 +355,23 @@ def jit_forms(forms, options=None, cache_dir=None, cflags=("-O1",), **kw):
     import ffcx.codegeneration.jit as J
 
     assert cache_dir is not None
-    cwd = os.getcwd()
-    return J.compile_forms(list(forms), options=dict(options or {}), cache_dir=Path(cache_dir),
-                           cffi_extra_compile_args=list(cflags), **kw)
+    try:
+        return J.compile_forms(list(forms), options=dict(options or {}), cache_dir=Path(cache_dir),
+                               cffi_extra_compile_args=list(cflags), **kw)
+    except (Timeout, KeyboardInterrupt, SystemExit, Exception):
+        raise
+    except BaseException as e:  # UFL's own errors (ArityMismatch, ...) derive from BaseException: a rejection like any other
+        raise Rejected(e) from e
 
 
 def jit_expressions(exprs, options=None, cache_dir=None, cflags=("-O1",), **kw):
     import ffcx.codegeneration.jit as J
 
     assert cache_dir is not None
-    return J.compile_expressions(list(exprs), options=dict(options or {}), cache_dir=Path(cache_dir),
-                                 cffi_extra_compile_args=list(cflags), **kw)
+    try:
+        return J.compile_expressions(list(exprs), options=dict(options or {}), cache_dir=Path(cache_dir),
+                                     cffi_extra_compile_args=list(cflags), **kw)
+    except (Timeout, KeyboardInterrupt, SystemExit, Exception):
+        raise
+    except BaseException as e:
+        raise Rejected(e) from e
